@@ -52,7 +52,7 @@ class _ConvBlock(nn.Module):
                 p = ((k - 1) * d) // 2
             else:
                 p = 0
-            self.conv = nn.Conv1d(cin, cout, k, stride=s, padding=p, dilation=d, groups=groups, bias=st['bias'])
+            self.conv = nn.Conv1d(cin, cout, k, stride=s, padding=p, dilation=d, groups=groups, bias=st['bias'], padding_mode=st.get('pmode') or 'zeros')
             self.bn = nn.BatchNorm1d(cout, eps=st.get('bn_eps', 1e-5)) if st['bn'] else None
         else:
             if pad in ('same', 'causal'):
@@ -61,7 +61,7 @@ class _ConvBlock(nn.Module):
                 p = ((k - 1) * d) // 2
             else:
                 p = 0
-            self.conv = nn.Conv2d(cin, cout, k, stride=s, padding=p, dilation=d, groups=groups, bias=st['bias'])
+            self.conv = nn.Conv2d(cin, cout, k, stride=s, padding=p, dilation=d, groups=groups, bias=st['bias'], padding_mode=st.get('pmode') or 'zeros')
             self.bn = nn.BatchNorm2d(cout, eps=st.get('bn_eps', 1e-5)) if st['bn'] else None
         self.act = {'relu': nn.ReLU(), 'relu6': nn.ReLU6(), 'silu': nn.SiLU(), None: None, 'frelu': 'frelu'}[st['act']]
         self.cout = cout
@@ -457,7 +457,7 @@ def base_stages(dim):
 
 HEADS = [{'kind': 'flatlin'}, {'kind': 'gaplin'}, {'kind': 'fcn'}]
 
-CONV_OPTS = [{'bias': False}, {'bn': True}, {'bn': True, 'bias': False}, {'bn': True, 'bn_eps': 0.05}, {'pad': 'causalv'}, {'pad': 'causalv', 'k': 5}, {'s': 2}, {'k': 5}, {'k': 1}, {'k': 4}, {'d': 2}, {'pad': 'sym'}, {'pad': 'same'},
+CONV_OPTS = [{'bias': False}, {'bn': True}, {'bn': True, 'bias': False}, {'bn': True, 'bn_eps': 0.05}, {'pad': 'causalv'}, {'pad': 'causalv', 'k': 5}, {'s': 2}, {'k': 5}, {'k': 1}, {'k': 4}, {'d': 2}, {'pad': 'sym'}, {'pad': 'same'}, {'pad': 'sym', 'pmode': 'reflect'}, {'pad': 'sym', 'pmode': 'circular'}, {'pad': 'same', 'pmode': 'replicate'},
              {'act': 'silu'}, {'act': 'frelu'}, {'act': None}, {'act': 'relu6'}, {'cout': 4}]
 HEAD_OPTS = {'flatlin': [{'flat': 'torch'}, {'flat': 'method'}, {'flat': 'torchend'}, {'flat': 'kwend'}, {'flat': 'methodend'}, {'flat': 'negstart'}, {'flat': 'negstartm'}, {'bias': False}, {'post': 'frelu'}, {'post': 'lsm'}],
              'gaplin': [{'flat': 'torch'}, {'flat': 'method'}, {'flat': 'squeeze'}, {'flat': 'squeezepos'}, {'bn': False}, {'hbias': False}, {'post': 'frelu'}, {'bn_eps': 0.05}],
@@ -517,7 +517,7 @@ def _valid(prog):
             return False
         if s['op'] == 'conv' and prog['dim'] == 2 and s.get('k', 3) == 4 and s.get('pad') in (None, 'same', 'causal') and s.get('s', 1) == 1:
             pass  # even kernels with 'same' padding are legal in torch (asymmetric padding)
-        if s['op'] == 'conv' and s.get('pad') in ('same', 'causalv') and prog['dim'] == 2:
+        if s['op'] == 'conv' and s.get('pad') in ('same', 'causalv') and prog['dim'] == 2 and not s.get('pmode'):
             return False  # identical to the 2D default / 1D only
         if s['op'] == 'conv' and s.get('pad') == 'sym' and s.get('k', 3) % 2 == 0:
             return False  # would change the length by one: legal, but a different family
